@@ -178,6 +178,13 @@ func (d Date) AddDateSpan(val DateSpan) Date {
 	return datetime.AddDateSpan(val).Date()
 }
 
+// Adds the given date span to the date, returns an error
+// when the result is outside of the representable year range.
+func (d Date) AddDateSpanErr(val DateSpan) (Date, Value) {
+	datetime := d.ToDateTimeValue()
+	return datetime.AddDateSpan(val).DateErr()
+}
+
 func (d Date) AddTimeSpan(val TimeSpan) *DateTime {
 	datetime := d.ToDateTimeValue()
 	return datetime.AddTimeSpan(val)
@@ -191,7 +198,7 @@ func (d Date) AddDateTimeSpan(val *DateTimeSpan) *DateTime {
 func (d Date) Subtract(val Value) (Value, Value) {
 	switch val.flag {
 	case DATE_SPAN_FLAG:
-		return d.SubtractDateSpan(val.AsInlineDateSpan()).ToValue(), Undefined
+		return ToValueErr(d.SubtractDateSpanErr(val.AsInlineDateSpan()))
 	case DATE_FLAG:
 		return d.DiffDate(val.AsDate()).ToValue(), Undefined
 	case REFERENCE_FLAG:
@@ -201,7 +208,7 @@ func (d Date) Subtract(val Value) (Value, Value) {
 
 	switch v := val.AsReference().(type) {
 	case DateSpan:
-		return d.SubtractDateSpan(v).ToValue(), Undefined
+		return ToValueErr(d.SubtractDateSpanErr(v))
 	default:
 		return Undefined, Ref(NewArgumentTypeError("other", val.Class().Inspect(), DateClass.Inspect()))
 	}
@@ -212,6 +219,13 @@ func (d Date) SubtractDateSpan(val DateSpan) Date {
 	result := d.ToDateTime()
 	result = result.SubtractDateSpan(val)
 	return result.Date()
+}
+
+// Subtracts the given date span from the date, returns an error
+// when the result is outside of the representable year range.
+func (d Date) SubtractDateSpanErr(val DateSpan) (Date, Value) {
+	result := d.ToDateTime()
+	return result.SubtractDateSpan(val).DateErr()
 }
 
 // Subtracts the given time span from the date.
@@ -237,7 +251,7 @@ func (d Date) Diff(val Value) (Value, Value) {
 
 	switch v := val.AsReference().(type) {
 	case DateSpan:
-		return d.SubtractDateSpan(v).ToValue(), Undefined
+		return ToValueErr(d.SubtractDateSpanErr(v))
 	case *DateTimeSpan:
 		return Ref(d.SubtractDateTimeSpan(v)), Undefined
 	default:
